@@ -55,6 +55,7 @@ class HasStates:
     status = Parameter(update_unchanged='never')
     all_status_changes = True  # when True, send also updates for status changes within a cycle
     _state_machine = None
+    _default_idle_status = IDLE, ''
     _status = IDLE, ''
     statusMap = None  # cache for status values derived from state methods
 
@@ -72,6 +73,7 @@ class HasStates:
             reset_fast_poll=False,
             status=(IDLE, ''),
             **kwds)
+        self._default_idle_status = self._state_machine.idle_status
 
     def initModule(self):
         super().initModule()
@@ -211,7 +213,10 @@ class HasStates:
                 sm.status = sm.status[0], 'restarting'
         else:
             sm.status = status
-        sm.start(statefunc, cleanup=kwds.pop('cleanup', self.on_cleanup), **kwds)
+        # idle_status: a run finishing with a bare Finish must not report the
+        # 'stopped' or error status left over from an earlier run
+        sm.start(statefunc, cleanup=kwds.pop('cleanup', self.on_cleanup),
+                 idle_status=kwds.pop('idle_status', self._default_idle_status), **kwds)
         self.read_status()
         if fast_poll:
             sm.reset_fast_poll = True
